@@ -1,7 +1,7 @@
 /-
   Driver for the stream-table model (C10).
     hist <streaming 0|1> <lifetime> <linger> <hook fails 0|1> <t0> <nprox> <seq0> <mask> <nops> {op}*
-        op = call <p> <data> | inext <i> | iclose <i> | pcall <p> | prel <p>
+        op = call <p> <data> | inext <i> | inextlost <i> | iclose <i> | pcall <p> | prel <p>
            | open <conn> <data> | next <id> <conn> | close <id> | disc <conn> | hk | tick <dt>
         data = P (not an iterator) | I:<item,...>   item = v<n> (yield n) | r<n> (raise n)
       → r1;r2;... | <table> | <proxies> | <iters> | <server log length>
@@ -37,6 +37,9 @@ def parseCOps : Nat → List String → Option (List COp)
   | n + 1, "inext" :: i :: rest => do
     let r ← parseCOps n rest
     pure (.inext (← i.toNat?) :: r)
+  | n + 1, "inextlost" :: i :: rest => do
+    let r ← parseCOps n rest
+    pure (.inextLost (← i.toNat?) :: r)
   | n + 1, "iclose" :: i :: rest => do
     let r ← parseCOps n rest
     pure (.iclose (← i.toNat?) :: r)
